@@ -707,6 +707,8 @@ def execute(case):
     last_sig = [None] * len(objs)
     last_kind = [None] * len(objs)
     returned = []   # (op index, builder, tree object, canonical form at return time)
+    handed_out_errors = []   # (op index, the parser.errors list object as handed out, its canonical form then)
+    handed_out_ser_errors = []   # the same for HTMLSerializer.errors
     reach = set()
     trace = []
     failure = None
@@ -817,6 +819,16 @@ def execute(case):
                 break
         if out[0] == "ok" and len(out) == 5:
             returned.append((i, cfg["builder"], out[4], out[1]))
+        if cfg["type"] == "serializer" and out[0] in ("ok", "serialize_error") and op.get("take") != 0:
+            errs = getattr(obj, "errors", None)
+            if isinstance(errs, list):
+                handed_out_ser_errors.append((i, errs, tuple(errs)))
+        if cfg["type"] == "parser" and out[0] in ("ok", "parse_error"):
+            # the caller may keep parser.errors as the record for this input: the
+            # list object itself (not a copy) is looked at again at the end
+            errs = getattr(obj, "errors", None)
+            if isinstance(errs, list):
+                handed_out_errors.append((i, errs, canon_errors(errs)))
     if failure is None:
         # cross-invariant: nothing returned earlier has changed since
         for (i, builder, tree, canon0) in returned:
@@ -827,6 +839,22 @@ def execute(case):
             if now != canon0:
                 failure = ("cross", "the tree returned by op %d changed after later ops on the same objects: %s"
                            % (i, first_diff(canon0, now)))
+                break
+    if failure is None:
+        for (i, errs, canon0) in handed_out_errors:
+            try:
+                now = canon_errors(errs)
+            except Exception as e:
+                now = [("raise", type(e).__name__, 0)]
+            if now != canon0:
+                failure = ("cross", "the parser.errors list handed out by op %d changed after later ops on the same parser: %s"
+                           % (i, first_diff(canon0, now)))
+                break
+    if failure is None:
+        for (i, errs, snap) in handed_out_ser_errors:
+            if tuple(errs) != snap:
+                failure = ("cross", "the serializer.errors list handed out by op %d changed after later ops on the same serializer: "
+                           "%s -> %s" % (i, brief(snap, 120), brief(tuple(errs), 120)))
                 break
     stats["probes"] = dict(P)
     stats["steps"] = len(case["ops"]) + P.get("readChunk", 0)
